@@ -6,7 +6,7 @@ import vf, abicheck, abitie
 
 LEVEL = "proof"
 READY = True
-THEOREMS = ["C02_core_signature_is_canonical", "C02_sync_import_call_never_panics", "C02_sync_export_call_never_panics"]
+THEOREMS = ["C02_core_signature_is_canonical", "C02_sync_import_call_never_panics", "C02_sync_export_call_never_panics", "C02_async_export_call_never_panics"]
 KINDS = ("call",)
 
 
@@ -30,7 +30,7 @@ def replay(ctx, path):
 
 META = {
     "engine": "coq+absdump",
-    "technique": "Coq proofs: wit-parser's wasm_signature (as modelled) is the canonical flatten_functype for every signature, variant and pointer width; Generator::call for a synchronous import and for a synchronous export reaches no panic site for every non-method signature (operand count at the core call = sig.params.len(), return pointer taken exactly once, final stack empty); token-for-token correspondence of the real call glue with the extracted Generator::call model; extracted interpreter checks one-call/one-return, argument and result values, parameter-record free on real streams",
+    "technique": "Coq proofs: wit-parser's wasm_signature (as modelled) is the canonical flatten_functype for every signature, variant and pointer width; Generator::call for a synchronous import, a synchronous export and an async (callback) export reaches no panic site for every non-method signature (operand count at the core call = sig.params.len(), return pointer taken exactly once, final stack empty); token-for-token correspondence of the real call glue with the extracted Generator::call model; extracted interpreter checks one-call/one-return, argument and result values, parameter-record free on real streams",
     "text": "Theorem (all signatures of valid types, all five AbiVariants, pw 4/8): params flat iff they fit 16 (4 for async imports) else one pointer; results direct iff at most one flat value, else return pointer (extra param for imports, returned pointer for exports); async variants return a status code. The call glue of every explored signature x variant x direction x async flag equals the model's token for token (including every rejected combination: model Err <=> real panic), and on the used combinations the real stream performs exactly one core call / one interface call and one return / task.return with exactly the spec's values, freeing a caller-allocated parameter record once.",
     "note": "Proved part: the core signature (partial w.r.t. the glue-level statement, which is executed, not proved). Trusted as for C01.",
 }
